@@ -64,5 +64,58 @@ theorem fromSlicePadded_sound (t : Buf) (tr : Json) (h : fromSlicePadded t = som
         simp only [hs0, hv2, hws, if_true]
       · cases h
 
+theorem padTail_term : GrammarPad.Term StrIn.padTail := by
+  intro c hc
+  rw [StrIn.padTail_0] at hc
+  have : c = 120 := (Option.some.inj hc).symm
+  subst this
+  decide
+
+/-- **every strictly well-formed text is accepted by the whole-input parse as composed** -/
+theorem fromSlicePadded_complete (t : Buf) (s0 e : Nat) (h : Spec.document true t = some (s0, e)) :
+    (fromSlicePadded t).isSome = true := by
+  have hpad : StrIn.pad t = t ++ StrIn.padTail := rfl
+  unfold Spec.document at h
+  simp only at h
+  cases hv : Spec.value true (Spec.fuelFor t) t (skipWs t 0) with
+  | err => rw [hv] at h; simp at h
+  | fuel => rw [hv] at h; simp at h
+  | ok e1 =>
+    rw [hv] at h
+    simp only at h
+    split at h
+    · rename_i hend
+      have hpr := (progress true t _ _ e1).1 hv
+      have hle : e1 ≤ t.size := (Spec.bound true t _ _ e1).1 hv
+      have hv2 := (GrammarPad.value_extend true t StrIn.padTail padTail_term _).1 _ e1 hv
+      rw [← hpad] at hv2
+      have hv3 := Spec.value_canonical true (StrIn.pad t) _ _ _ hv2 (by simp)
+      obtain ⟨tr, _, hdisp⟩ := (parse_of_strict (StrIn.pad t) (Spec.fuelFor (StrIn.pad t))).1 _ e1 hv3
+      have hs0 : skipWs (StrIn.pad t) 0 = skipWs t 0 := by
+        rw [hpad]; exact GrammarPad.skipWs_extend t StrIn.padTail _ 0 rfl hpr.2
+      have hb : (StrIn.pad t)[skipWs t 0]? = some t[skipWs t 0] := by
+        rw [hpad, StrPad.get_pre t StrIn.padTail _ hpr.2, getElem?_pos t _ hpr.2]
+      unfold fromSlicePadded DomP.value
+      rw [skipSpace_spec, hs0, hb]
+      simp only [Option.map_some, hdisp _ hb]
+      simp [hle, hend]
+    · cases h
+
+/-- **the whole-input parse as the code composes it accepts exactly the strictly well-formed texts** -/
+theorem fromSlicePadded_accept_iff (t : Buf) : (fromSlicePadded t).isSome = true ↔ (Spec.document true t).isSome = true := by
+  constructor
+  · intro h
+    cases hd : fromSlicePadded t with
+    | none => rw [hd] at h; cases h
+    | some tr =>
+      obtain ⟨s, e, hs⟩ := fromSlicePadded_sound t tr hd
+      rw [hs]; rfl
+  · intro h
+    cases hs : Spec.document true t with
+    | none => rw [hs] at h; cases h
+    | some r =>
+      obtain ⟨s, e⟩ := r
+      exact fromSlicePadded_complete t s e hs
+
 end DomP
 end Sonic
